@@ -61,15 +61,24 @@ Definition is_temporal (b : nat) : bool := (b =? B_ONSET) || (b =? B_OFFSET) || 
 Definition is_duration_key (b : nat) : bool := (b =? B_DURATION) || (b =? B_DELAY).
 Definition is_all_time (b : nat) : bool := is_temporal b || is_duration_key b.
 
-(* Which variant of the code is modelled.
-   the code as it is:   m_canon = m_foldkey = m_foldeq = false
-   the repaired code:   all true
-     m_canon    after the sort by str(child) a second, stable sort orders tags
-                and groups by the text of their *sorted* form (_sort_key)
-     m_foldkey  _sort_key of a tag is str(tag).casefold() (else str(tag))
-     m_foldeq   HedTag.__eq__ is equality of short_tag.casefold() *)
-Record mode := mkMode { m_canon : bool; m_foldkey : bool; m_foldeq : bool }.
-Definition mode_of (fixed : bool) : mode := mkMode fixed fixed fixed.
+(* Which state of the code is modelled.  /repo now contains four repairs of
+   the duplicate check; each flag switches one of them on, and the code as it
+   is (current /repo, harness FIXED = True) has all of them: [mode_of true].
+   [mode_of false] is the behaviour BEFORE these fix commits and is kept only
+   as the record of the repaired defects.
+     m_canon    fix commit 7597eca: after the sort by str(child) a second, stable
+                sort orders tags and groups by the text of their *sorted* form
+                (HedGroup._sort_key)
+     m_foldkey  fix commit 7597eca: _sort_key of a tag is str(tag).casefold()
+                (a variant with m_canon but without m_foldkey was never committed;
+                it is only used to show that such a partial repair is not enough)
+     m_foldeq   fix commit 2492808: HedTag.__eq__ is equality of short_tag.casefold()
+                (before: short_tag equal, or original text case-folded equal)
+     m_total    fix commit 3e47c8c: a repeated group that holds nothing but empty
+                groups is reported (GroupValidator._sorted_text) instead of raising
+                IndexError *)
+Record mode := mkMode { m_canon : bool; m_foldkey : bool; m_foldeq : bool; m_total : bool }.
+Definition mode_of (fixed : bool) : mode := mkMode fixed fixed fixed fixed.
 
 (* ---------------------------------------------------------------- hed_group.py *)
 
@@ -106,7 +115,7 @@ End Sort.
 
 Definition tagkey (m : mode) (a : tag) : str := if m_foldkey m then t_shortf a else t_short a.
 
-(* text of a sorted nested list (only used by the repaired variant) *)
+(* HedGroup._sort_key: text of a sorted nested list (exists since fix commit 7597eca) *)
 Fixpoint vkey (m : mode) (v : view) : str :=
   match v with
   | VT a => tagkey m a
@@ -125,10 +134,10 @@ Definition arrange_pairs (key : str * view -> str) (ps : list (str * view)) : li
 (* key=lambda x: str(x[0]) : the text of the child as written (unsorted members) *)
 Definition oldkey (p : str * view) : str :=
   match snd p with VT a => t_short a | VL _ => fst p end.
-(* key=lambda x: self._sort_key(x[1]) : text of the sorted form (repaired code only) *)
+(* key=lambda x: self._sort_key(x[1]) : text of the sorted form (since fix commit 7597eca) *)
 Definition newkey (m : mode) (p : str * view) : str := vkey m (snd p).
 
-(* body of HedGroup._sorted.  The repaired code sorts a second time (stable) by the
+(* body of HedGroup._sorted.  Since fix commit 7597eca the code sorts a second time (stable) by the
    canonical key, so the text as written only orders members of equal canonical form. *)
 Definition arrange (m : mode) (ps : list (str * view)) : list view :=
   let pass1 := arrange_pairs oldkey ps in
@@ -171,13 +180,39 @@ Fixpoint veq (m : mode) (v w : view) : bool :=
 
 (* ---------------------------------------------------------------- group_util.py *)
 
-(* while isinstance(found_group, list): found_group = found_group[0] *)
+(* before fix commit 3e47c8c:
+     while isinstance(found_group, list): found_group = found_group[0]; base_steps_up += 1 *)
 Fixpoint first_leaf_steps (v : view) : res nat :=
   match v with
   | VT _ => Ok 0
   | VL [] => Exn IndexError
   | VL (x :: _) => let* n := first_leaf_steps x in Ok (S n)
   end.
+
+(* since 3e47c8c:  while isinstance(found_group, list) and found_group: ...
+   returns (base_steps_up, True when the walk ended at a tag) *)
+Fixpoint walk_down (v : view) : nat * bool :=
+  match v with
+  | VT _ => (0, true)
+  | VL [] => (0, false)
+  | VL (x :: _) => let (n, b) := walk_down x in (S n, b)
+  end.
+
+(* GroupValidator._sorted_text(item) *)
+Fixpoint sorted_text (v : view) : str :=
+  match v with
+  | VT a => t_short a
+  | VL l => ch_open :: join [ch_comma] (map sorted_text l) ++ [ch_close]
+  end.
+
+(* what is handed to format_error for a repeated group: the number of _parent steps
+   from the first tag, or (nothing but empty groups inside) the text of the sorted group *)
+Definition repeated_group_subject (m : mode) (c : view) : res (nat + str) :=
+  if m_total m then
+    let (n, at_tag) := walk_down c in
+    Ok (if at_tag then inl n else inr (sorted_text c))
+  else
+    let* n := first_leaf_steps c in Ok (inl n).
 
 Definition veq_prev (m : mode) (c : view) (prev : option view) : bool :=
   match prev with None => false | Some p => veq m c p end.
@@ -193,7 +228,7 @@ Fixpoint dup_loop (m : mode) (prev : option view) (l : list (view * res (list ki
         (if veq_prev m c prev then
            match c with
            | VT _ => Ok [K_TAG_REPEATED]
-           | VL _ => let* _ := first_leaf_steps c in Ok [K_TAG_REPEATED_GROUP]
+           | VL _ => let* _ := repeated_group_subject m c in Ok [K_TAG_REPEATED_GROUP]
            end
          else Ok []) in
       let* s := sub in
